@@ -2,6 +2,8 @@ import Capella.Lemmas.XmlRoundTrip
 import Capella.Lemmas.XmlCanon
 import Capella.Lemmas.XmlLayout
 import Capella.Gen.Exs
+import Capella.Lemmas.XmlNsUpdate
+import Capella.Gen.Ns
 
 /-!
 # C01 — unmodified load-then-save reproduces Capella's files byte for byte
@@ -152,6 +154,47 @@ theorem attrs_layout_independent (ll₁ ll₂ ai₁ ai₂ : Nat) (r₁ r₂ : Bo
   simp only [Nat.zero_add] at h1 h2
   rw [h1, h2]
 
+
+/-! ## Namespace declarations on save (`update_namespaces`; the model is `Model/XmlNsUpdate.lean`, the
+plugin table `Gen/Ns.lean` is generated from the live `NAMESPACES_PLUGINS`; the theorems about edited
+models are in `Props/C02.lean`) -/
+
+/-- **The root is only replaced when it actually changed**: if the root already declares exactly the
+namespaces the recomputation arrives at (in any order), `update_namespaces` hands back the very same
+document. -/
+theorem untouched_root_kept (vps : List (Str × Str)) (d d' : Doc) (n : List (Str × Str))
+    (hn : newNsmap Capella.Gen.Ns.plugins vps d.root = .ok n) (he : dictEq d.root.nsdecls n = true)
+    (h : updateNs Capella.Gen.Ns.plugins vps d = .ok d') : d' = d := by
+  obtain ⟨n', hn', hcase⟩ := updateNs_shape _ vps d d' h
+  rw [hn] at hn'
+  simp only [Except.ok.injEq] at hn'
+  subst hn'
+  rcases hcase with ⟨_, rfl⟩ | ⟨hf, _⟩
+  · rfl
+  · rw [he] at hf; simp at hf
+
+/-- **Unmodified load-then-save**: take a file this writer (or Capella) produced from a Capella-shaped
+document in file order whose root declares exactly the namespaces in use.  Loading it, recomputing the
+namespaces and writing it again — what `MelodyModel.save()` does — reproduces the file byte for byte. -/
+theorem load_save_fixpoint (k : FragKind) (vps : List (Str × Str)) (d : Doc) (n : List (Str × Str))
+    (hwf : wfDoc d = true) (hc : canonDoc d = d)
+    (hn : newNsmap Capella.Gen.Ns.plugins vps d.root = .ok n) (he : dictEq d.root.nsdecls n = true) :
+    (parse (writeXml k d)).bind (fun x =>
+        match updateNs Capella.Gen.Ns.plugins vps x with
+        | .ok y => some (writeXml k y)
+        | .error _ => none) = some (writeXml k d) := by
+  rw [parse_writeXml k d hwf, hc]
+  simp only [Option.bind_some, updateNs, hn, he, if_true]
+
+/-- **The declarations the writer emits after the recomputation are exactly the namespaces in use**: `xmi`,
+`xsi` and what the elements of the tree ask for — "any set of used namespaces". -/
+theorem declarations_are_used_namespaces (vps : List (Str × Str)) (d d' : Doc)
+    (h : updateNs Capella.Gen.Ns.plugins vps d = .ok d') (b : Str × Str) :
+    b ∈ d'.root.nsdecls ↔ b ∈ nsInit ∨ Asked Capella.Gen.Ns.plugins vps (iterS [] d.root) b := by
+  obtain ⟨n, hn, hmem⟩ := updateNs_decls _ vps d d' h
+  rw [hmem b]
+  exact scanGo_mem _ vps _ nsInit n hn b
+
 /-! ## The boundary of `wfDoc` (each clause excluded for a reason; witnesses) -/
 
 /-- Mixed content is outside the domain: the writer tests the *parent's* tail inside the child
@@ -227,5 +270,16 @@ example : serialize 16 true [] true ⟨[], .mk "r".toList [] [("a".toList, "0123
 example : serialize 17 true [] true ⟨[], .mk "r".toList [] [("a".toList, "0123456789".toList), ("b".toList, "x".toList)] none none [], []⟩
     = "<r a=\"0123456789\" b=\"x\"/>\n".toList := by decide
 example : wfDoc (canonDoc sample) = true ∧ Doc.beq (canonDoc (canonDoc sample)) (canonDoc sample) = true := by decide
+
+-- the namespace theorems: a root in file order that declares exactly what is used stays as it is
+def nsSample : Doc :=
+  ⟨[⟨"Capella_Version_6.0.0".toList, none⟩],
+   .mk "Project".toList [("xmi".toList, XMI), ("xsi".toList, XSI), ("re".toList, "http://www.polarsys.org/capella/common/re/6.0.0".toList)]
+     [(clark XMI "version".toList, "2.0".toList), ("id".toList, "r".toList)] none none
+     [.mk "ownedX".toList [] [(attXT, "re:CatalogElement".toList)] none none []], []⟩
+def nsSampleVps : List (Str × Str) := [("org.polarsys.capella.core.viewpoint".toList, "6.0.0".toList)]
+example : wfDoc nsSample = true ∧ Doc.beq (canonDoc nsSample) nsSample = true := by decide +kernel
+example : (match newNsmap Capella.Gen.Ns.plugins nsSampleVps nsSample.root with
+    | .ok n => dictEq nsSample.root.nsdecls n | .error _ => false) = true := by decide +kernel
 
 end Capella.Props.C01
